@@ -81,6 +81,7 @@ P = {
 }
 
 GUARDS = {
+ "C14": "the copy depth at PipelineBuilder.from_pipeline / build_config and DatasetBuilder.__init__ / build_container",
  "C05": "the path selection of sample_records and sample_users (fall-back calls with their arguments)", "C06": "RankingMetricBase.truncate, Recall's denominator and nDCG's ideal length",
  "C01": "MatrixRelationshipSet.row_items", "C02": "fallback_on_none (use_first_of)", "C03": "TopNRanker.__call__ and UserTrainingHistoryLookup.__call__",
  "C07": "RunAnalysis.measure (test-data chain)", "C08": "BiasModel.compute_for_items (user-offset chain)", "C09": "UserKNNScorer.__call__ (self-similarity guard)",
